@@ -515,15 +515,19 @@ func TestC19(t *testing.T) {
 	// mixed batches answered together: refusals come again, slow successes are acknowledged (the branch
 	// that drains the queues is chosen by a select: several rounds)
 	if len(st.Violations) == 0 {
-		rounds := 3
+		rounds := 4
 		if thorough {
 			rounds = 12
 		}
 		for i := 0; i < rounds; i++ {
-			what := pushBatchOutcome(t, Seed()+int64(i), 3, 3)
+			nf, ns := 3, 3
+			if i%2 == 1 {
+				nf, ns = 10, 4
+			}
+			what := pushBatchOutcome(t, Seed()+int64(i), nf, ns)
 			st.Count("push_batch_rounds", 1)
 			if what != "" && !strings.HasPrefix(what, "setup:") {
-				violate("batch-outcome", what, fmt.Sprintf("3 x 500 + 3 x slow 200, round %d", i))
+				violate("batch-outcome", what, fmt.Sprintf("%d x 500 + %d x slow 200, round %d", nf, ns, i))
 				break
 			}
 		}
